@@ -61,8 +61,35 @@ pub fn guarded<T, F: FnOnce() -> T>(f: F) -> Result<T, String> {
     }
 }
 
+/// Where and why the most recent panic happened (set by the hook; panics are otherwise silent).
+pub static LAST_PANIC: Mutex<Option<(String, u32, String)>> = Mutex::new(None);
+
 pub fn silence_panics() {
-    std::panic::set_hook(Box::new(|_| {}));
+    std::panic::set_hook(Box::new(|info| {
+        let (file, line) = info.location().map(|l| (l.file().to_string(), l.line())).unwrap_or_default();
+        let msg = if let Some(s) = info.payload().downcast_ref::<&str>() {
+            (*s).to_string()
+        } else if let Some(s) = info.payload().downcast_ref::<String>() {
+            s.clone()
+        } else {
+            "panic".to_string()
+        };
+        if let Ok(mut g) = LAST_PANIC.lock() {
+            *g = Some((file, line, msg));
+        }
+    }));
+}
+
+/// Did the most recent panic originate in the code under test (ckc-rs, a path dependency on /repo)
+/// rather than in this harness?
+pub fn last_panic_in_code_under_test() -> Option<(String, u32, String)> {
+    let g = LAST_PANIC.lock().ok()?;
+    let (file, line, msg) = g.clone()?;
+    if file.starts_with("/repo/") && !msg.starts_with("harness:") {
+        Some((file, line, msg))
+    } else {
+        None
+    }
 }
 
 /// Collects what a replay run covered and what it found.
